@@ -143,6 +143,12 @@ func runC07(c *fw.Ctx, idx int) fw.Result {
 			}
 			ts = append(ts, gen.FastaRec{ID: fmt.Sprintf("t%d", i), Desc: fmt.Sprintf("t%d", i), Seq: s})
 		}
+		if r.Chance(0.25) {
+			// a target that carries the name of a query (an older version of the same genome in
+			// the database): distances are functions of the two sequences, never of the names
+			k, j := r.Intn(nq), r.Intn(nt)
+			ts[j].ID, ts[j].Desc = qs[k].ID, qs[k].Desc
+		}
 	}
 	W := len(qs[0].Seq)
 	qText := gen.RenderFasta(qs, gen.PickLineWidth(r, W))
